@@ -85,6 +85,10 @@ func build(cfg Config, dst *xport.Rec) (w *wsutil.Writer, model *wops.Model, ok 
 	case 2:
 		ms := &wsflate.MessageState{}
 		ms.SetCompressed(true)
+		if cfg.N%2 == 1 {
+			// SetExtensions SETS the list: a first attempt with something else, replaced by the real list
+			w.SetExtensions(wsutil.SendExtensionFunc(func(h ws.Header) (ws.Header, error) { h.Rsv |= 1; return h, nil }), ms)
+		}
 		w.SetExtensions(ms)
 		rsv = func(first bool) byte {
 			if first && !ref.IsControl(cfg.Op) {
@@ -95,6 +99,9 @@ func build(cfg Config, dst *xport.Rec) (w *wsutil.Writer, model *wops.Model, ok 
 	}
 	if cfg.NoFlush {
 		w.DisableFlush()
+		if cfg.N%2 == 0 {
+			w.DisableFlush() // idempotent
+		}
 	}
 	return w, wops.NewModel(dst, cfg.Side == ref.SideClient, cfg.Op, cfg.NoFlush, rsv), true
 }
